@@ -22,7 +22,48 @@ pub enum Ev {
     EarlyEof,
 }
 
-const KINDS: [ErrorKind; 6] = [ErrorKind::Other, ErrorKind::UnexpectedEof, ErrorKind::WouldBlock, ErrorKind::TimedOut, ErrorKind::PermissionDenied, ErrorKind::InvalidData];
+/// every stable std::io::ErrorKind except Interrupted (which is retried, not returned)
+const KINDS: [ErrorKind; 39] = [
+    ErrorKind::Other,
+    ErrorKind::UnexpectedEof,
+    ErrorKind::WouldBlock,
+    ErrorKind::TimedOut,
+    ErrorKind::PermissionDenied,
+    ErrorKind::InvalidData,
+    ErrorKind::NotFound,
+    ErrorKind::ConnectionRefused,
+    ErrorKind::ConnectionReset,
+    ErrorKind::HostUnreachable,
+    ErrorKind::NetworkUnreachable,
+    ErrorKind::ConnectionAborted,
+    ErrorKind::NotConnected,
+    ErrorKind::AddrInUse,
+    ErrorKind::AddrNotAvailable,
+    ErrorKind::NetworkDown,
+    ErrorKind::BrokenPipe,
+    ErrorKind::AlreadyExists,
+    ErrorKind::NotADirectory,
+    ErrorKind::IsADirectory,
+    ErrorKind::DirectoryNotEmpty,
+    ErrorKind::ReadOnlyFilesystem,
+    ErrorKind::StaleNetworkFileHandle,
+    ErrorKind::InvalidInput,
+    ErrorKind::WriteZero,
+    ErrorKind::StorageFull,
+    ErrorKind::NotSeekable,
+    ErrorKind::QuotaExceeded,
+    ErrorKind::FileTooLarge,
+    ErrorKind::ResourceBusy,
+    ErrorKind::ExecutableFileBusy,
+    ErrorKind::Deadlock,
+    ErrorKind::CrossesDevices,
+    ErrorKind::TooManyLinks,
+    ErrorKind::InvalidFilename,
+    ErrorKind::ArgumentListTooLong,
+    ErrorKind::Unsupported,
+    ErrorKind::OutOfMemory,
+    ErrorKind::Other,
+];
 
 #[derive(Clone, Debug, Serialize, Deserialize)]
 pub struct RCase {
@@ -179,7 +220,7 @@ fn ev_strategy() -> BoxedStrategy<Ev> {
         6 => prop_oneof![0u32..70, 0u32..5000, any::<u32>()].prop_map(Ev::Short),
         3 => Just(Ev::Full),
         3 => Just(Ev::Interrupted),
-        1 => (0u8..6).prop_map(Ev::Fail),
+        1 => (0u8..39).prop_map(Ev::Fail),
         1 => Just(Ev::EarlyEof),
     ]
     .boxed()
@@ -555,7 +596,7 @@ pub fn subs() -> Vec<Box<dyn DynSub>> {
     vec![
         Box::new(PropSub::<RCase> {
             name: "scripted-readers",
-            rule: "proptest: data (boundary-lattice length <= 300 KiB quick / 4 MiB thorough) behind a scripted Read: per read call one of short read / full read / Err(Interrupted) / hard error of 6 kinds / early Ok(0), then full reads to EOF; optional prefix already in the hasher, update() continues afterwards; oracle: update_reader returns Ok iff the reader ended with Ok(0), returns the reader's own error kind otherwise, never reads after the end, never surfaces Interrupted, and the hasher == spec(prefix || bytes yielded before the terminating event [|| suffix]); non-trivial = a short read and (an Interrupted after data or a hard error)",
+            rule: "proptest: data (boundary-lattice length <= 300 KiB quick / 4 MiB thorough) behind a scripted Read: per read call one of short read / full read / Err(Interrupted) / hard error of any stable ErrorKind (38 kinds) / early Ok(0), then full reads to EOF; optional prefix already in the hasher, update() continues afterwards; oracle: update_reader returns Ok iff the reader ended with Ok(0), returns the reader's own error kind otherwise, never reads after the end, never surfaces Interrupted, and the hasher == spec(prefix || bytes yielded before the terminating event [|| suffix]); non-trivial = a short read and (an Interrupted after data or a hard error)",
             cases: (24_000, 120_000),
             strategy: reader_strategy,
             classify: classify_reader,
